@@ -54,6 +54,8 @@ def jsonable(o):
         return {str(k): jsonable(v) for k, v in o.items()}
     if isinstance(o, (list, tuple)):
         return [jsonable(v) for v in o]
+    if hasattr(o, "unit") and hasattr(o, "value") and not isinstance(o, (str, bytes)):   # astropy Quantity
+        return {"value": jsonable(np.asarray(o.value)), "unit": str(o.unit)}
     if isinstance(o, np.ndarray):
         return jsonable(o.tolist())
     if isinstance(o, (np.integer,)):
@@ -409,8 +411,12 @@ class Ctx:
             "wall_s": round(wall, 2), "violations": len(viols),
         }
         if not self.replay_mode:
-            os.makedirs(os.path.join(VERIF, "evidence"), exist_ok=True)
-            with open(os.path.join(VERIF, "evidence", f"{self.prop}.json"), "w") as f:
+            # evidence/ describes runs against /repo itself; a run against a private copy (VERIF_REPO, used when the
+            # machinery is tested against seeded changes) leaves it alone and writes under .scratch/
+            edir = os.path.join(VERIF, "evidence") if os.path.realpath(REPO) == "/repo" else \
+                os.path.join(VERIF, ".scratch", "evidence-other-repo")
+            os.makedirs(edir, exist_ok=True)
+            with open(os.path.join(edir, f"{self.prop}.json"), "w") as f:
                 json.dump(ev, f, indent=1)
         for l in lines:
             print(l, flush=True)
